@@ -22,7 +22,9 @@
 (*                appeared/changed only by an os.replace of a complete dot  *)
 (*                file onto it                                              *)
 (*   C12.noExtra  SyncEnd lines: non-dot names are a subset of `expected`   *)
-(*   C12.present  SyncEnd lines of an undisturbed sync; also SyncExc lines  *)
+(*   C12.present  SyncEnd lines, for every listed instance whose own        *)
+(*                ZooKeeper nodes did not change during the sync (all of    *)
+(*                them when the sync was undisturbed); also SyncExc lines  *)
 (*                of an undisturbed sync that raised WITHOUT an injected    *)
 (*                fault (it never completes: same data, same exception)     *)
 (*   C12.content  SyncEnd lines of an undisturbed sync, files this sync     *)
@@ -131,6 +133,7 @@ LostAg(s, line) ==
         !.written = IF line.ev = "Rename" /\ "exc" \notin DOMAIN line
                     THEN @ \cup {line.args[2]} ELSE @,
         !.disturbed = IF line.ev \in EnvEvs THEN TRUE ELSE @,
+        !.touched = IF line.ev \in EnvEvs THEN @ \cup {line.args[1]} ELSE @,
         !.pc = "lost"]
   IN CASE line.ev = "SyncBegin" ->
             SyncBeginDo(s, SetOf(line.args[1]), line.args[2]).ag
@@ -204,7 +207,8 @@ Verdict(s, line, post, ag2, rd2, explained) ==
   IN [fail |->
         F("C12.atomic", AtomicState(od) /\ StepOk(s.obs, line, post.dir))
         \cup (IF end THEN F("C12.noExtra", NoExtra(od, ag2.expected)) ELSE {})
-        \cup (IF calm \/ selfexc THEN F("C12.present", Present(od, zk, ag2.expected)) ELSE {})
+        \cup (IF end \/ selfexc
+              THEN F("C12.present", Present(od, zk, ag2.expected \ ag2.touched)) ELSE {})
         \cup (IF calm THEN F("C12.content", Content(od, zk, ag2.written)) ELSE {})
         \cup (IF calm /\ ag2.start THEN F("C12.refresh", Refresh(od, zk, ag2.stale0)) ELSE {})
         \cup (IF s.rd.live \/ rd2.live \/ line.ev \in LiveEvs THEN {} ELSE F("drift.step", explained))
@@ -217,6 +221,7 @@ Verdict(s, line, post, ag2, rd2, explained) ==
         \cup E("sync", calm /\ ag2.expected # {})
         \cup E("written", calm /\ ag2.written # {})
         \cup E("conc", end /\ ag2.disturbed)
+        \cup E("vanished", end /\ \E a \in ag2.expected \cap ag2.touched : a \notin DOMAIN zk.pl)
         \cup E("refresh", calm /\ ag2.start /\ \E a \in ag2.stale0 :
                               a \in DOMAIN zk.pl /\ a \in DOMAIN zk.man)
         \cup E("crash", line.ev = "Crash")
@@ -248,8 +253,10 @@ TNext == /\ i < Len(Traces[t].lines)
                 k0 == CHOOSE k \in hits : \A j \in hits : k <= j
                 pred == IF explained THEN Do(s, cs[k0].ev, cs[k0].args) ELSE s
                 ag2 == IF explained
-                       THEN [pred.ag EXCEPT !.disturbed =
-                               @ \/ (s.ag.pc = "lost" /\ line.ev \in EnvEvs)]
+                       THEN [pred.ag EXCEPT
+                               !.disturbed = @ \/ (s.ag.pc = "lost" /\ line.ev \in EnvEvs),
+                               !.touched = IF s.ag.pc = "lost" /\ line.ev \in EnvEvs
+                                           THEN @ \cup {line.args[1]} ELSE @]
                        ELSE LostAg(s, line)
                 rd2 == IF explained THEN pred.rd ELSE LostRd(s, line)
                 v == Verdict(s, line, post, ag2, rd2, explained)
